@@ -24,6 +24,7 @@ type c02Msg struct {
 	SendBody bool   `json:"client_sends_body"`
 	WaitMs   int    `json:"client_waits_ms"`
 	Trailer  string `json:"chunked_trailer,omitempty"`
+	Resp     string `json:"handler_answers,omitempty"` // "" | timeout | timeout-resp : through TimeoutError* (the server swaps the RequestCtx)
 }
 
 type c02Conn struct {
@@ -78,6 +79,7 @@ func scenC02(e *Env) func() {
 				m.BodyLen = sizes[e.Int(len(sizes))]
 				m.Chunked = e.Chance(35)
 				m.Read = Pick(e, "all", "none", "none", "1", "100", "8192", "postbody", "all")
+				m.Resp = Pick(e, "", "", "", "", "", "timeout", "timeout-resp")
 				if p.Hook != "none" && e.Chance(60) {
 					m.Expect = true
 					m.Reject = e.Chance(50)
@@ -100,6 +102,9 @@ func scenC02(e *Env) func() {
 			fmt.Fprintf(&head, "%s %s HTTP/1.1\r\nHost: x\r\nX-Read: %s\r\n", method, m.Target, m.Read)
 			if m.Reject {
 				head.WriteString("X-Reject: 1\r\n")
+			}
+			if m.Resp != "" {
+				head.WriteString("X-Resp: " + m.Resp + "\r\n")
 			}
 			if m.Expect {
 				head.WriteString("Expect: 100-continue\r\n")
@@ -197,7 +202,17 @@ func scenC02(e *Env) func() {
 			seen[inv.URI] = got
 			complete[inv.URI] = full
 			k.mu.Unlock()
-			ctx.SetBodyString("ok")
+			switch string(ctx.Request.Header.Peek("X-Resp")) {
+			case "timeout":
+				ctx.TimeoutError("handler gave up")
+			case "timeout-resp":
+				var r fasthttp.Response
+				r.SetStatusCode(504)
+				r.SetBodyString("gave up")
+				ctx.TimeoutErrorWithResponse(&r)
+			default:
+				ctx.SetBodyString("ok")
+			}
 		}
 		k.Start()
 		exs := make([]*Exchange, nconn)
